@@ -460,7 +460,7 @@ def scn_faults(ctx):
     _compare("c10.after_fault", res, det_alt, kind, tier, idx)
 
 
-REAL = (("threads", 2), ("threads", 8), ("processes", 3), ("synchronous", 1), ("threads", 1), ("processes", 2))
+REAL = (("threads", 2), ("threads", 8), ("processes", 3), ("synchronous", 1), ("threads", 1), ("processes", 2), ("distributed", 4))
 
 
 def scn_real(ctx):
@@ -499,6 +499,17 @@ def scn_real(ctx):
         saved_hs = os.environ.get("PYTHONHASHSEED")
         os.environ["PYTHONHASHSEED"] = child_hash
         try:
+            if name == "distributed":
+                from dask.distributed import Client
+
+                client = Client(processes=False, n_workers=1, threads_per_worker=nw, dashboard_address=None)
+                try:
+                    try:
+                        return CphotAng(det_alt)(*args, _cloud(kind)), None
+                    except BaseException as e:  # noqa: BLE001
+                        return None, e
+                finally:
+                    client.close()
             with dask.config.set(scheduler=name, num_workers=nw, **{"multiprocessing.initializer": env.child_init}):
                 try:
                     return CphotAng(det_alt)(*args, _cloud(kind)), None
@@ -676,7 +687,7 @@ FAMILIES = {"faultfree": scn_faultfree, "faults": scn_faults, "real": scn_real, 
 OBSERVATIONAL = ("real",)
 
 PLAN = {
-    "quick": [("huge", 2, 1), ("faultfree", 900, 6), ("faults", 500, 6), ("real", 16, 1), ("strict", 60, 4)],
+    "quick": [("huge", 2, 1), ("faultfree", 900, 6), ("faults", 500, 6), ("real", 21, 1), ("strict", 60, 4)],
     "thorough": [("faultfree", 40000, 20), ("faults", 20000, 20), ("real", 300, 2), ("huge", 16, 1), ("strict", 3000, 10)],
 }
 BUDGET = {"quick": 300, "thorough": 2700}
